@@ -54,38 +54,38 @@ Proof. exact example_reply. Qed.
 (* ---- flows: Floor.* and EptMapResult.pack / unpack of _epm.py, regenerated as syntax on every run (gen/F_rpc.v) and run
    in the world Flow/World_rpc.v, ARE the model functions (floor_unpack, ept_map_result_unpack ..) the theorems above are
    about; conventions as in Properties/C12.v. ---- *)
-From V Require Import Prelude.PySlice Prelude.PyAst Prelude.PyWorld gen.F_rpc Model.Verification Flow.World_rpc Proofs.Flow_rpc_lib Proofs.Flow_rpc_epm.
+From V Require Import Prelude.PyAst Prelude.PyWorld gen.F_rpc Model.Verification Flow.World_rpc Proofs.Flow_rpc_lib Proofs.Flow_rpc_epm.
 From V Require Import Prelude.PySlice.
 Local Open Scope list_scope.
 Local Open Scope Z_scope.
-Theorem C18_flow_floor_pack : forall mf fuel f, run (W mf) fuel k_flow_floor_pack [VO (OFloor f)] = chk (in_range 2 (len (fl_lhs f) + 1) && in_range 1 (floor_protocol f) && in_range 2 (len (fl_rhs f))) (floor_generic_pack (floor_protocol f) (fl_lhs f) (fl_rhs f)).
+Theorem C18_flow_floor_pack : forall mf fuel f, run (W mf) fuel k_flow_floor_pack [VO (OFloor f)] = chk (floor_generic_ranges (floor_protocol f) (fl_lhs f) (fl_rhs f)) (floor_generic_pack (floor_protocol f) (fl_lhs f) (fl_rhs f)).
 Proof. exact flow_floor_pack. Qed.
 Print Assumptions C18_flow_floor_pack.
-Theorem C18_flow_floor_pack_generic : forall mf fuel f, fl_kind f = FK_Generic -> run (W mf) fuel k_flow_floor_pack [VO (OFloor f)] = chk (in_range 2 (len (fl_lhs f) + 1) && in_range 1 (fl_protocol f) && in_range 2 (len (fl_rhs f))) (floor_pack f).
+Theorem C18_flow_floor_pack_generic : forall mf fuel f, fl_kind f = FK_Generic -> run (W mf) fuel k_flow_floor_pack [VO (OFloor f)] = chk (floor_ranges f) (floor_pack f).
 Proof. exact flow_floor_pack_generic. Qed.
 Print Assumptions C18_flow_floor_pack_generic.
 Theorem C18_flow_floor_unpack : forall mf fuel data, run (W mf) fuel k_flow_floor_unpack [VO (OCls CFloor); VB data] = (let* f := floor_unpack data in Ok (VO (OFloor f))).
 Proof. exact flow_floor_unpack. Qed.
 Print Assumptions C18_flow_floor_unpack.
-Theorem C18_flow_tcpfloor_pack : forall mf fuel f port, fl_kind f = FK_TCP port -> run (W mf) fuel k_flow_tcpfloor_pack [VO (OFloor f)] = chk (in_range 2 port) (floor_pack f).
+Theorem C18_flow_tcpfloor_pack : forall mf fuel f port, fl_kind f = FK_TCP port -> run (W mf) fuel k_flow_tcpfloor_pack [VO (OFloor f)] = chk (floor_ranges f) (floor_pack f).
 Proof. exact flow_tcpfloor_pack. Qed.
 Print Assumptions C18_flow_tcpfloor_pack.
 Theorem C18_flow_tcpfloor_unpack : forall mf fuel lhs rhs, run (W mf) fuel k_flow_tcpfloor_unpack [VO (OCls CTCPFloor); VB lhs; VB rhs] = Ok (VO (OFloor (known_floor (FK_TCP (be_val rhs))))).
 Proof. exact flow_tcpfloor_unpack. Qed.
 Print Assumptions C18_flow_tcpfloor_unpack.
-Theorem C18_flow_ipfloor_pack : forall mf fuel f addr, fl_kind f = FK_IP addr -> run (W mf) fuel k_flow_ipfloor_pack [VO (OFloor f)] = chk (in_range 4 addr) (floor_pack f).
+Theorem C18_flow_ipfloor_pack : forall mf fuel f addr, fl_kind f = FK_IP addr -> run (W mf) fuel k_flow_ipfloor_pack [VO (OFloor f)] = chk (floor_ranges f) (floor_pack f).
 Proof. exact flow_ipfloor_pack. Qed.
 Print Assumptions C18_flow_ipfloor_pack.
 Theorem C18_flow_ipfloor_unpack : forall mf fuel lhs rhs, run (W mf) fuel k_flow_ipfloor_unpack [VO (OCls CIPFloor); VB lhs; VB rhs] = Ok (VO (OFloor (known_floor (FK_IP (be_val rhs))))).
 Proof. exact flow_ipfloor_unpack. Qed.
 Print Assumptions C18_flow_ipfloor_unpack.
-Theorem C18_flow_rpccofloor_pack : forall mf fuel f vm, fl_kind f = FK_RPC_CO vm -> run (W mf) fuel k_flow_rpccofloor_pack [VO (OFloor f)] = chk (in_range 2 vm) (floor_pack f).
+Theorem C18_flow_rpccofloor_pack : forall mf fuel f vm, fl_kind f = FK_RPC_CO vm -> run (W mf) fuel k_flow_rpccofloor_pack [VO (OFloor f)] = chk (floor_ranges f) (floor_pack f).
 Proof. exact flow_rpccofloor_pack. Qed.
 Print Assumptions C18_flow_rpccofloor_pack.
 Theorem C18_flow_rpccofloor_unpack : forall mf fuel lhs rhs, run (W mf) fuel k_flow_rpccofloor_unpack [VO (OCls CRPCConnectionOrientedFloor); VB lhs; VB rhs] = Ok (VO (OFloor (known_floor (FK_RPC_CO (le_val rhs))))).
 Proof. exact flow_rpccofloor_unpack. Qed.
 Print Assumptions C18_flow_rpccofloor_unpack.
-Theorem C18_flow_uuidfloor_pack : forall mf fuel f u v vm, fl_kind f = FK_UUID u v vm -> run (W mf) fuel k_flow_uuidfloor_pack [VO (OFloor f)] = chk (in_range 2 v && in_range 2 vm) (floor_pack f).
+Theorem C18_flow_uuidfloor_pack : forall mf fuel f u v vm, fl_kind f = FK_UUID u v vm -> run (W mf) fuel k_flow_uuidfloor_pack [VO (OFloor f)] = chk (floor_ranges f) (floor_pack f).
 Proof. exact flow_uuidfloor_pack. Qed.
 Print Assumptions C18_flow_uuidfloor_pack.
 Theorem C18_flow_uuidfloor_unpack : forall mf fuel lhs rhs, run (W mf) fuel k_flow_uuidfloor_unpack [VO (OCls CUUIDFloor); VB lhs; VB rhs] = (let* u := uuid_of_bytes_le (slice None (Some 16) lhs) in Ok (VO (OFloor (known_floor (FK_UUID u (le_val (slice (Some 16) (Some 18) lhs)) (le_val rhs)))))).
@@ -94,19 +94,15 @@ Print Assumptions C18_flow_uuidfloor_unpack.
 Theorem C18_flow_eptmapresult_unpack : forall mf mfuel fuel data, ept_map_result_unpack mfuel data <> Raise OutOfFuel -> run (W mf) fuel k_flow_eptmapresult_unpack [VO (OCls CEptMapResult); VB data] = lift_fst OEptMapResult (ept_map_result_unpack mfuel data).
 Proof. exact flow_eptmapresult_unpack. Qed.
 Print Assumptions C18_flow_eptmapresult_unpack.
-Theorem C18_flow_eptmapresult_pack : forall mf fuel m, eptres_ranges m = true -> run (W mf) fuel k_flow_eptmapresult_pack [VO (OEptMapResult m)] = Ok (VB (ept_map_result_pack m)).
+Theorem C18_flow_eptmapresult_pack : forall mf fuel m, ept_map_result_ranges m = true -> run (W mf) fuel k_flow_eptmapresult_pack [VO (OEptMapResult m)] = Ok (VB (ept_map_result_pack m)).
 Proof. exact flow_eptmapresult_pack. Qed.
 Print Assumptions C18_flow_eptmapresult_pack.
+Theorem C18_flow_wf_floor_ranges : forall f, wf_floor f = true -> floor_ranges f = true.
+Proof. exact wf_floor_ranges. Qed.
+Print Assumptions C18_flow_wf_floor_ranges.
+Theorem C18_flow_wf_eptres_ranges : forall m, wf_ept_map_result m = true -> ept_map_result_ranges m = true.
+Proof. exact wf_eptres_ranges. Qed.
+Print Assumptions C18_flow_wf_eptres_ranges.
 Theorem C18_flow_eptmapresult_unpack_total : forall mf mfuel fuel data, len data < Z.of_nat mfuel -> run (W mf) fuel k_flow_eptmapresult_unpack [VO (OCls CEptMapResult); VB data] = lift_fst OEptMapResult (ept_map_result_unpack mfuel data).
 Proof. exact flow_eptmapresult_unpack_total. Qed.
 Print Assumptions C18_flow_eptmapresult_unpack_total.
-
-(* ---- flow: _client._process_ept_map_result itself (the function C18_port and C18_linear_process are about), regenerated as syntax on
-   every run (gen/F_online.v) and run in the world Flow/World_online.v (EptMapResult.unpack := ept_map_result_unpack with the model's loop
-   fuel efuel; isinstance(floor, TCPFloor) := the floor is a TCP floor), IS Epm.process_ept_map_result ---- *)
-From V Require Import gen.F_online Model.Conversation Flow.World_online Proofs.Flow_online_ept.
-Theorem C18_flow_process_ept_map_result : forall wrap unwrap prov legs dc efuel server username password auth_protocol tr fuel rsp,
-  run (WO wrap unwrap prov legs dc efuel server username password auth_protocol tr) fuel k_flow_process_ept_map_result [VO (World_online.OResp rsp)]
-  = (let* (p, _) := process_ept_map_result efuel (rs_stub_data rsp) in Ok (VI p)).
-Proof. exact flow_process_ept_map_result. Qed.
-Print Assumptions C18_flow_process_ept_map_result.
